@@ -82,7 +82,7 @@ def alphabet(cls_name, tier="quick"):
             if cls_name in ("Polygon", "ConvexPolygon", "Circle", "Ellipse"):
                 A.append(("call", m, "batch2"))
         elif m == "compute_form_factor_amplitude":
-            A += [("call", m, "q"), ("call", m, "q_density")]
+            A += [("call", m, v) for v in ("q", "q_density", "q_single", "q_1d", "q_list")]
         elif m == "distance_to_surface":
             A += [("call", m, "angles"), ("call", m, "angles_wide")]
         elif m == "get_face_area":
@@ -320,6 +320,30 @@ def _points(obj, rng, n):
     return c + np.array([[rng.uniform(-1.5, 1.5) for _ in range(3)] for _ in range(n)]) * ext
 
 
+def _relayout(a, rng):
+    """The caller's array in one of the shapes callers really pass: as is (most often),
+    float32, Fortran-ordered, a strided view of a larger array, read-only, or integers when
+    the values allow it.  The values are the same; what may differ is whether a conversion
+    inside the library copies."""
+    r = rng.random()
+    if r < 0.72 or not isinstance(a, np.ndarray) or a.dtype != np.float64:
+        return a
+    if r < 0.78:
+        return a.astype(np.float32)
+    if r < 0.84 and a.ndim == 2:
+        return np.asfortranarray(a)
+    if r < 0.90:
+        big = np.zeros(tuple(2 * n for n in a.shape), dtype=a.dtype)
+        view = big[tuple(slice(None, None, 2) for _ in a.shape)]
+        view[...] = a
+        return view
+    if r < 0.96:
+        b = a.copy()
+        b.flags.writeable = False
+        return b
+    return a
+
+
 def build_call(obj, st):
     """Returns (callable taking no args, list of argument arrays to watch)."""
     name, variant = st["name"], st["variant"]
@@ -341,7 +365,7 @@ def build_call(obj, st):
         if variant == "single":
             p = _points(obj, rng, 1)[0]
         elif variant == "batch":
-            p = _points(obj, rng, rng.randint(2, 9))
+            p = _relayout(_points(obj, rng, rng.randint(2, 9)), rng)
         elif variant == "batch2":
             p = _points(obj, rng, rng.randint(2, 9))[:, :2].copy()
         elif variant == "list":
@@ -354,6 +378,16 @@ def build_call(obj, st):
         ext = history.extent(obj)
         q = np.array([[rng.uniform(-2, 2) for _ in range(3)] for _ in range(5)]) / ext
         q[0] = 0.0
+        if variant == "q_single":
+            q1 = q[1:2].copy()  # one wave vector, shape (1, 3)
+            return (lambda: obj.compute_form_factor_amplitude(q1, **kw)), [("q", q1)]
+        if variant == "q_1d":
+            q1 = q[1].copy()  # shape (3,)
+            return (lambda: obj.compute_form_factor_amplitude(q1, **kw)), [("q", q1)]
+        if variant == "q_list":
+            ql = q.tolist()
+            return (lambda: obj.compute_form_factor_amplitude(ql, **kw)), [("q(list)", ql)]
+        q = _relayout(q, rng)
         if variant == "q_density":
             return (lambda: obj.compute_form_factor_amplitude(q, density=2.5, **kw)), [("q", q)]
         return (lambda: obj.compute_form_factor_amplitude(q, **kw)), [("q", q)]
@@ -363,6 +397,7 @@ def build_call(obj, st):
             a = np.array([rng.uniform(-4 * np.pi, 6 * np.pi) for _ in range(5)] + [2 * np.pi, 0.0])
         else:
             a = np.array([rng.uniform(0, 2 * np.pi) for _ in range(6)])
+        a = _relayout(a, rng)
         return (lambda: obj.distance_to_surface(a, **kw)), [("angles", a)]
     if name == "get_face_area":
         nf = len(obj.faces)
